@@ -460,8 +460,11 @@ typedef struct {
 	int prev_noprog_ok;    // previous call legitimately made no progress
 } drv_t;
 
+static int g_noprogress_checks = 0;   // np=1: skip the progress oracle (used to look past a known progress defect)
+
 static int sample_progress(drv_t *d, int final)
 {
+	if (g_noprogress_checks) return 0;
 	uint64_t pin = 0, pout = 0;
 	lzma_get_progress(d->strm, &pin, &pout);
 	d->res->samples++;
@@ -668,18 +671,19 @@ int main(void)
 	while (hp_next(&l)) {
 		if (strcmp(l.tok[0], "scn") != 0 || l.ntok < 3) { printf("bad-op\n"); continue; }
 		snprintf(g_cur_id, sizeof g_cur_id, "%s", l.tok[1]);
-		stream_cfg *cfg = calloc(MAXSTREAM, sizeof *cfg); int ns = 0, bad = 0, dump = 0, pmode = 0; unsigned pusec = 300; uint64_t pseed = 1; long wd = 180;
+		stream_cfg *cfg = calloc(MAXSTREAM, sizeof *cfg); int ns = 0, bad = 0, dump = 0, pmode = 0, np = 0; unsigned pusec = 300; uint64_t pseed = 1; long wd = 180;
 		unsigned long long sc[8] = { 0, 1, 0, 3, 2000, 32, 4, 0 }; int use_sched = 0;   // mode seed sticky pct_depth pct_steps p_timeout p_spurious
 		for (int i = 2; i < l.ntok; ++i) {
 			if (!strncmp(l.tok[i], "S:", 2)) { if (ns >= MAXSTREAM || parse_stream(l.tok[i], &cfg[ns++]) != 0) bad = 1; }
 			else if (!strncmp(l.tok[i], "pert=", 5)) { unsigned long long a = 0, b = 1, c = 300; sscanf(l.tok[i] + 5, "%llu:%llu:%llu", &a, &b, &c); pmode = (int)a; pseed = b; pusec = (unsigned)c; }
 			else if (!strncmp(l.tok[i], "sched=", 6)) { use_sched = 1; sscanf(l.tok[i] + 6, "%llu:%llu:%llu:%llu:%llu:%llu:%llu", &sc[0], &sc[1], &sc[2], &sc[3], &sc[4], &sc[5], &sc[6]); }
 			else if (!strncmp(l.tok[i], "dump=", 5)) dump = atoi(l.tok[i] + 5);
+			else if (!strncmp(l.tok[i], "np=", 3)) np = atoi(l.tok[i] + 3);
 			else if (!strncmp(l.tok[i], "wd=", 3)) wd = atol(l.tok[i] + 3);
 			else bad = 1;
 		}
 		if (bad || ns == 0) { printf("bad-op\n"); free(cfg); continue; }
-		g_failed = 0; g_fail[0] = 0;
+		g_failed = 0; g_fail[0] = 0; g_noprogress_checks = np;
 		g_deadline = time(NULL) + wd;
 		uint8_t *input[MAXSTREAM] = {0};
 		stream_res *ref = calloc(MAXSTREAM, sizeof *ref), *res = calloc(MAXSTREAM, sizeof *res);
